@@ -656,6 +656,13 @@ impl File {
         self.stamp = Some(newstamp);
     }
 
+    /// Forgets the file's stamp: its state is unknown until a build records it again.
+    ///
+    /// A generated file without a stamp is rebuilt by the next run that needs it.
+    pub fn clear_stamp(&mut self) {
+        self.stamp = None;
+    }
+
     pub(crate) fn update_stamp(&mut self, v: &Env, must_exist: bool) -> Result<(), RedoError> {
         let newstamp = self.read_stamp(v)?;
         if must_exist && newstamp.is_missing() {
